@@ -274,6 +274,7 @@ type Cluster struct {
 	lastArmq  map[string]string
 	lastSusp  map[string]string
 	suspSet   map[string]map[string]bool
+	slack     int
 
 	// statistics
 	Datagrams    int
@@ -853,6 +854,13 @@ func (c *Cluster) RecvDigest(slot int, keep bool, cut int, pktMax int, sendEmpty
 				max = hdr
 			} else {
 				max = cum[cut-1]
+			}
+			// every other time the largest size that still cuts at the same element: the packet then has
+			// room left that must stay unused (an encoder that carries on after the element that did not
+			// fit would fill it)
+			c.slack++
+			if c.slack%2 == 0 && cum[cut]-1 > max {
+				max = cum[cut] - 1
 			}
 		}
 	}
